@@ -312,6 +312,12 @@ def judge(cfg, o):
 
     # 2. only CommunicationError subclasses
     for side, exc, at in (('I', o.i_exc, o.i_exc_at), ('T', o.t_exc, o.t_exc_at)):
+        if exc is not None and cfg['kind'] == 'empty' and isinstance(
+                exc, ValueError):
+            # an empty payload is refused up front as an invalid argument on
+            # both sides (nothing is sent): not a delivery failure
+            info['empty_rejected'] = 1
+            continue
         if exc is not None and not isinstance(exc, CE):
             vio.append(('C04|exception|%s|did=%d|%s' % (side, did, xsig(exc)),
                         '%s side raised %r, not a CommunicationError (%s)'
